@@ -23,12 +23,16 @@ func init() {
 		Rule: "case = (file header form, total size, trailing bytes, chip chunking behaviour, max-read setting, plain or under secure messaging) read with NfcSession.ReadFile from the simulated chip (READ BINARY with P1 bit 8 resolved as short-EF reference as ICAO 9303-10 requires); boundary product of sizes {2..7,126..131,254..262,32763..32772,65530..65539} x header forms x behaviours {all requested, caps 1,2,3,7,100,223,231,255,256, random short reads, Le caps answering 6700 / 6Cxx, jmrtd zero-read} x max-read {1..65536 boundary set}, plus random cases; " +
 			"fallback-ladder product: header probe answered with 1..4 bytes x Le caps {100,127..129,191..193,200,254..256} refusing with 6700 / 6Cxx x {first block refused once, single-byte reads then the 3rd / 4th read refused once} x sizes around 128/192/256 x header forms x max-read {128..257,1000,65536} with and without extended length; " +
 			"SELECT EF status sweep: the chip stores the file and answers SELECT EF with each of a representative set of status words (thorough: all 65536), plain and as protected status under secure messaging, with and without another current file: 'not found' only for 6A82 / 6283, data only if the chip completed the selection and then exact; " +
-			"non-trivial = the file exists on the chip; distinct = the case tuple",
+			"answers not taken from the stored file: the chip selected the file and answers the header probe / the n-th read / every read from the n-th on with 9000 (or 6282) and no data, the header probe with an incomplete header (1..3 bytes) or with filler bytes (00, 00 00, FF, ...), or the file is blank (only 00 / only FF) x header forms x sizes {1..7,40,130,259,300,1000} x max-read {1,3,4,128,256,1000,65536} x plain / 3DES / AES x with and without another current file: never 'not found', exact when the answers come from the file; " +
+			"read histories: 3..12 operations on ONE session against ONE chip that keeps its current file as a real chip does (a SELECT EF that does not complete leaves the previous file current, SELECT MF / by AID leave none) - ReadFile of stored files, of absent files (6A82), of files whose SELECT EF follows a script of refusals / warnings / 'not there' statuses (so a file can become readable later), of files asked for before (favoured), reads with one READ BINARY refused once or an empty header answer, SelectEF called directly, SelectMF, SelectAid (011D is EF.CardSecurity in the MF and EF.SOD in the application), secure messaging from the start or from the middle, every chunking behaviour; every single result is judged: exact bytes of THAT file in the directory current at that moment, or an error; 'not found' only if the chip answered 6A82 / 6283 to the SELECT EF of that file; " +
+			"non-trivial = the file exists on the chip (histories: always); distinct = the case tuple / the history",
 		MinEvaluations: 2000,
 		Assumptions: []string{
 			"the simulated chip follows ICAO 9303-10: READ BINARY with even INS and P1 bit 8 set addresses a short EF identifier; offsets are 15 bits",
 			"an error return is always acceptable; exactness is demanded of successful returns only; (nil,nil) is 'not found'",
 			"the chip 'says the file is not there' with 6A82 (file not found) or 6283 (selected file deactivated) and with no other status word",
+			"when the chip answers the header probe with bytes that are not the stored file's (filler) or the file is blank there is no stored data object to compare with: only \"never 'not found'\" is demanded there",
+			"in a history a ReadFile that sends no SELECT EF is not a violation by itself: only its result is judged ('not found' is then accepted when the chip's last answer to a SELECT EF of that file in the current directory said so)",
 		},
 		Run: runC13,
 	})
@@ -165,6 +169,12 @@ type c13Case struct {
 	selOn bool   // SELECT EF of the target is answered with selSW (protected status under SM)
 	selSW uint16 //
 	prior bool   // a neighbour EF is selected before the target is read
+	// answers that are not taken from the stored file (see c13_empty.go); all zero = off
+	emptyNth  int    // the n-th READ BINARY that reaches the file (1 = header probe) is answered without data ...
+	emptyFrom bool   // ... and so is every later one (false: only that one)
+	emptySW   uint16 // ... with this status (0 = 9000)
+	hdrLit    string // hex: the header probe is answered with these bytes (and 9000) instead of the file's
+	blank     int    // 1 / 2: the stored file consists of 00 / FF bytes only (no data object to return)
 }
 
 func (cs c13Case) String() string {
@@ -175,12 +185,23 @@ func (cs c13Case) String() string {
 	if cs.selOn {
 		s += fmt.Sprintf(" select-sw=%04x prior=%v", cs.selSW, cs.prior)
 	}
+	if cs.emptyNth != 0 || cs.hdrLit != "" || cs.blank != 0 {
+		s += fmt.Sprintf(" empty=%d/from=%v/%04x hdrlit=%q blank=%d prior=%v", cs.emptyNth, cs.emptyFrom, cs.emptySW, cs.hdrLit, cs.blank, cs.prior)
+	}
 	return s
 }
 
 func c13Run(k *fw.K, cs c13Case) {
 	r := k.RNG
 	stored, object, ok := cs.f.build(r)
+	if cs.blank != 0 {
+		// a blank elementary file: nothing but 00 or FF bytes
+		stored = make([]byte, cs.f.total+cs.f.trail)
+		for i := range stored {
+			stored[i] = []byte{0x00, 0xFF}[cs.blank-1]
+		}
+		object, ok = nil, true
+	}
 	if !ok {
 		k.Count("skipped_unbuildable_header")
 		return
@@ -213,6 +234,7 @@ func c13Run(k *fw.K, cs c13Case) {
 			return n, 0
 		}
 	}
+	c13InstallAnswers(card, cs)
 	// neighbours with recognisable content under every short EF identifier
 	for n := 1; n <= 16; n++ {
 		nb := make([]byte, 300)
@@ -296,6 +318,11 @@ func c13Run(k *fw.K, cs c13Case) {
 		c13SelectOracle(k, cs, data, err, object, det)
 		return
 	}
+	c13AnswerCounters(k, cs, card.Events[evStart:], data, err)
+	if cs.hdrLit != "" || cs.blank != 0 {
+		c13ForeignBytesOracle(k, cs, data, err, det)
+		return
+	}
 	if err != nil {
 		k.Count("result_error")
 		if cs.absent != 0 {
@@ -312,6 +339,7 @@ func c13Run(k *fw.K, cs c13Case) {
 		if len(object) <= 4 {
 			key = "readfile:not-found-but-present:object<=4-bytes"
 		}
+		key += c13AnswerKeySuffix(cs)
 		k.Violation(key, fmt.Sprintf("ReadFile returned (nil, nil) = 'not found' although SELECT succeeded and the chip stores a %d-byte object", len(object)), det())
 		return
 	}
@@ -420,12 +448,48 @@ func runC13(c *fw.Ctx) {
 		cases = append(cases, c13LadderQuick(c.Seed)...)
 	}
 	cases = append(cases, c13SelectCases()...)
+	if c.Quick() {
+		cases = append(cases, c13AnswerQuick(c.Seed)...)
+	}
 	c.Cases(len(cases), func(i int) string { return "read|" + cases[i].String() }, func(i int, k *fw.K) {
 		c13Run(k, cases[i])
+	})
+	// read histories: several ReadFile calls on one session against one chip
+	directed := c13DirectedHistories()
+	c.Cases(len(directed), func(i int) string { return fmt.Sprintf("history|directed=%d", i) }, func(i int, k *fw.K) {
+		c13RunHistory(k, directed[i])
+	})
+	c.Cases(c.Pick(2500, 150000), func(i int) string { return fmt.Sprintf("history|random=%d", i) }, func(i int, k *fw.K) {
+		c13RunHistory(k, c13GenHistory(k.RNG))
+	})
+	// whole documents read from chips that lack some of the files their EF.SOD lists
+	docConfigs := []int{}
+	for ci := 0; ci < c.Pick(6, 18); ci++ {
+		docConfigs = append(docConfigs, ci)
+	}
+	for j := 0; j < c.Pick(2, 3); j++ {
+		docConfigs = append(docConfigs, c11Open+j)
+	}
+	nvar := c13DocumentVariants(c.Quick())
+	c.Cases(len(docConfigs)*nvar, func(i int) string { return fmt.Sprintf("document|config=%d variant=%d", docConfigs[i/nvar], i%nvar) }, func(i int, k *fw.K) {
+		c13RunDocument(k, docConfigs[i/nvar], i%nvar)
 	})
 	if c.Quick() {
 		return
 	}
+	// thorough: the whole product of answers that are not taken from the file, by index
+	c.Cases(c13AnswerN, func(i int) string {
+		cs, _ := c13AnswerAt(i)
+		return "answer|" + cs.String()
+	}, func(i int, k *fw.K) {
+		cs, ok := c13AnswerAt(i)
+		if !ok {
+			k.Count("answer_product_unbuildable_or_duplicate")
+			k.AddEvals(-1) // nothing was executed
+			return
+		}
+		c13Run(k, cs)
+	})
 	// thorough: the whole fallback-ladder product and all 65536 SELECT statuses, by index
 	c.Cases(c13LadderN, func(i int) string {
 		cs, _ := c13LadderAt(c.Seed, i)
